@@ -49,6 +49,12 @@ pub enum Op {
 
 #[derive(Clone, Debug, PartialEq, Serialize, Deserialize)]
 pub struct TableauCase {
+    /// For tableaux handed to `Tableau::new`: the `flip_result` flag (objective was negated
+    /// for maximisation) and the objective offset `optimal_value()` has to undo / add.
+    #[serde(default)]
+    pub flip: bool,
+    #[serde(default)]
+    pub offset: f64,
     pub source: TableauSource,
     /// Enumerate every prefix of the uninterrupted `solve(10_000)` first.
     pub prefixes: bool,
@@ -850,9 +856,9 @@ pub fn run_tableau_case(case: &TableauCase) -> TableauRun {
                     b.clone(),
                     basis.clone(),
                     *value,
-                    0.0,
+                    case.offset,
                     vars,
-                    false,
+                    case.flip,
                 ),
                 true,
             )
@@ -1473,6 +1479,8 @@ pub fn gen_case(rng: &mut Rng, index: u64) -> (String, TableauCase) {
         return (
             format!("classic:{name}"),
             TableauCase {
+                flip: rng.chance(1, 2),
+                offset: if rng.chance(1, 2) { 0.0 } else { rng.range(-9, 9) as f64 },
                 source,
                 prefixes: true,
                 ops,
@@ -1524,6 +1532,8 @@ pub fn gen_case(rng: &mut Rng, index: u64) -> (String, TableauCase) {
     (
         kind,
         TableauCase {
+            flip: rng.chance(1, 2),
+            offset: if rng.chance(1, 2) { 0.0 } else { rng.range(-9, 9) as f64 },
             source,
             prefixes: true,
             ops,
